@@ -254,7 +254,7 @@ def _in_refs_arm(root, node):
 
 def r5(ctx, prog, ev, evalr, rep):
     rep.rule("C15-R5", "both numeric accessors are consulted at every node->number conversion: each as_f64(x) is "
-             "`as_f64(x).or_else(|| as_i64(x).map(..as f64))` (or the mirrored form) on the same x", floor=4)
+             "`as_f64(x).or_else(|| as_i64(x).map(..as f64))` (or the mirrored form) on the same x", floor=1)
     f64n, i64n = QT + "::as_f64", QT + "::as_i64"
     seen_i64 = 0
     for p in evalr:
